@@ -98,6 +98,10 @@ def x12n_document(param, src_file, fd_997, fd_html,
     for seg in src:
         #find node
         orig_node = node
+        # interchange level errors already known: what is added while this
+        # segment is handled is shown next to it in the HTML report
+        isa_node_before = errh.cur_isa_node
+        isa_err_ct_before = len(isa_node_before.errors) if isa_node_before is not None else 0
 
         if False:
             print('--------------------------------------------')
@@ -232,12 +236,18 @@ def x12n_document(param, src_file, fd_997, fd_html,
                     err_node_list.append(err_node)
                 except pyx12.errors.IterOutOfBounds:
                     break
-            if seg.get_seg_id() == 'SE' and errh.cur_st_node is not None \
-                    and errh.cur_st_node not in err_node_list:
-                # A set without body errors is never revisited by the iterator:
-                # the errors of its SE would not be shown
-                err_node_list.append(errh.cur_st_node)
-            html.gen_seg(seg, src, err_node_list)
+            # A set (group, interchange) without errors below it is never revisited
+            # by the iterator: the errors of its trailer would not be shown
+            for (trailer_id, loop_node) in (('SE', errh.cur_st_node), ('GE', errh.cur_gs_node), ('IEA', errh.cur_isa_node)):
+                if seg.get_seg_id() == trailer_id and loop_node is not None and loop_node not in err_node_list:
+                    err_node_list.append(loop_node)
+            # errors filed on the interchange while this segment was handled
+            isa_errors = []
+            if isa_node_before is not None:
+                isa_errors += isa_node_before.errors[isa_err_ct_before:]
+            if errh.cur_isa_node is not None and errh.cur_isa_node is not isa_node_before:
+                isa_errors += errh.cur_isa_node.errors
+            html.gen_seg(seg, src, err_node_list, isa_errors)
 
         if fd_xmldoc:
             xmldoc.seg(node, seg)
